@@ -88,8 +88,41 @@ NONSTRINGS = [None, True, False, 0, -1, 1.5, 2 ** 32, 2 ** 128, 10 ** 400, [], [
 MORE_NONSTRINGS = [1, 0.0, -0.5, 1e308, 256, -2 ** 63, [0], [[]], {"": ""}, {"127.0.0.1": 0}]
 
 
+class Special(object):
+    """A conforming non-string whose repr() raises (an integer beyond CPython's 4300-digit str limit, an array
+    nested beyond the recursion limit).  It cannot be written into a JSON case file either, so cases carry a
+    descriptor.  Used only where the model expects 'pass': a conforming instance needs no message, so nothing
+    may try to render it (where the verdict is 'fail' the library's own message rendering raises for such
+    values on the unchanged tree too; that is the same limit C09 keeps out of its universe)."""
+
+    def __init__(self, kind, n):
+        self.kind, self.n = kind, n
+
+    def build(self):
+        if self.kind == "pow10":
+            return 10 ** self.n
+        x = []
+        for _ in range(self.n):
+            x = [x]
+        return x
+
+    def desc(self):
+        return {"__special__": [self.kind, self.n]}
+
+
+SPECIALS = [Special("pow10", 5000), Special("nested-array", 3000)]
+
+
+def real(x):
+    if isinstance(x, Special):
+        return x.build()
+    if isinstance(x, dict) and "__special__" in x:
+        return Special(*x["__special__"]).build()
+    return x
+
+
 def instances(tier):
-    return strings(tier) + NONSTRINGS + (MORE_NONSTRINGS if tier == "thorough" else [])
+    return strings(tier) + NONSTRINGS + (MORE_NONSTRINGS if tier == "thorough" else []) + SPECIALS
 
 
 def positions(tier):
@@ -396,7 +429,14 @@ def run_unit(unit, ctx):
         for name in NAMES:
             known = name in built.known
             for pos in POSITIONS:
-                for x in INSTANCES:
+                for x0 in INSTANCES:
+                    x = real(x0)
+                    if isinstance(x0, Special):
+                        if pos != "top" or expected(cfg, built.known, name, x) != "pass":
+                            continue
+                        xdesc = x0.desc()
+                    else:
+                        xdesc = x
                     ev += 1
                     exp, obs, prob = judge(built, d, pos, name, x)
                     if cfg["kind"] != "none" and known:
@@ -410,11 +450,11 @@ def run_unit(unit, ctx):
                         n = seen.get(sig, 0)
                         seen[sig] = n + 1
                         if n < 3:
-                            case = {"draft": d, "checker": cfg, "format": name, "instance": x, "position": pos}
+                            case = {"draft": d, "checker": cfg, "format": name, "instance": xdesc, "position": pos}
                             viol.append({"signature": sig, "case": case, "size": len(repr(case)),
                                          "detail": {"expected": exp, "observed": obs, "more": prob[1]}})
                     elif len(samples) < 2 and known and ev % 211 == 7:
-                        samples.append({"draft": d, "checker": cfg, "format": name, "instance": x, "position": pos,
+                        samples.append({"draft": d, "checker": cfg, "format": name, "instance": xdesc, "position": pos,
                                         "expected": exp, "observed": obs})
     if dict(FormatChecker.checkers) != CLASS_REGISTRY:
         raise AssertionError("harness polluted the class-wide FormatChecker registry")
@@ -425,6 +465,6 @@ def run_unit(unit, ctx):
 
 def replay(case, ctx):
     built = Built(case["checker"])
-    exp, obs, prob = judge(built, case["draft"], case["position"], case["format"], case["instance"])
+    exp, obs, prob = judge(built, case["draft"], case["position"], case["format"], real(case["instance"]))
     return {"reproduced": prob is not None, "expected": exp, "observed": obs,
             "problem": None if prob is None else prob[0], "detail": None if prob is None else prob[1]}
